@@ -129,9 +129,9 @@ func (c *checkCtx) writeEvidence(bt *batch, xp *xprocResult, reports []report, v
 		"wall_s":     wall,
 		"violations": unlisted,
 	}
-	os.MkdirAll(filepath.Join(verifDir(), "evidence"), 0o755)
+	os.MkdirAll(filepath.Join(outDir(), "evidence"), 0o755)
 	b, _ := json.MarshalIndent(ev, "", " ")
-	path := filepath.Join(verifDir(), "evidence", c.ID+".json")
+	path := filepath.Join(outDir(), "evidence", c.ID+".json")
 	if err := os.WriteFile(path, b, 0o644); err != nil {
 		fmt.Fprintln(os.Stderr, "gcsim: cannot write evidence:", err)
 	}
